@@ -3,7 +3,7 @@
 From Coq Require Import String.
 From Coq Require Import ZArith List Bool.
 From LasV Require Import Lib.Base Lib.Layout Gen.GenHeaderLayout Gen.GenKnown Spec.Asprs Model.Las Model.LasSpec
-  Proofs.AsprsLayoutProofs Proofs.VlrProofs Model.Known Proofs.KnownProofs Proofs.KnownIOProofs.
+  Proofs.AsprsLayoutProofs Proofs.VlrProofs Model.Known Proofs.KnownProofs Proofs.KnownIOProofs Proofs.KnownEditProofs.
 Import ListNotations.
 Open Scope list_scope.
 Open Scope Z_scope.
@@ -301,6 +301,108 @@ Theorem C08_append_refused_resized : forall hs v14 loc vl vb vl' vb' rest npts n
 Proof. exact append_refused_resized. Qed.
 Print Assumptions C08_append_refused_resized.
 
+(* ---------------- between reading and writing: the header re-synchronises / rebuilds its VLR list ---------------- *)
+(* LasHeader._sync_extra_bytes_vlr (add / remove extra dimensions, point_format setter, set_version_and_point_format,
+   laspy.convert, header.vlrs = ...): the records of the class it regenerates are taken out by CLASS, the generated one
+   goes last; every other record stays, verbatim and in order *)
+Theorem C08_sync_keeps_others : forall l gen, gen_ok gen ->
+  extract_rest sync_extracted_class (sync_eb l gen) = extract_rest sync_extracted_class l.
+Proof. exact sync_keeps_others. Qed.
+Print Assumptions C08_sync_keeps_others.
+
+(* a record that was kept raw (no class for its ids, or a payload its class refuses) survives whatever its ids are *)
+Theorem C08_sync_keeps_raw : forall l gen v, In (KRaw v) l -> In (KRaw v) (sync_eb l gen).
+Proof. exact sync_keeps_raw. Qed.
+Print Assumptions C08_sync_keeps_raw.
+
+Theorem C08_sync_keeps_record : forall l gen k, In k l -> kv_class k <> sync_extracted_class -> In k (sync_eb l gen).
+Proof. exact sync_keeps_record. Qed.
+Print Assumptions C08_sync_keeps_record.
+
+(* any sequence of methods / property setters of the header (those that re-synchronise are read from the call graph
+   of the class on every run; the vlrs setter also extracts the class it names) *)
+Theorem C08_header_ops_keep_others : forall ms l, Forall (fun mg => gen_ok (snd mg)) ms ->
+  extract_rest sync_extracted_class (extract_rest vlrs_setter_extracts (header_ops ms l))
+  = extract_rest sync_extracted_class (extract_rest vlrs_setter_extracts l).
+Proof. exact header_ops_keep_others. Qed.
+Print Assumptions C08_header_ops_keep_others.
+
+Theorem C08_header_ops_keep_raw : forall ms l v, In (KRaw v) l -> In (KRaw v) (header_ops ms l).
+Proof. exact header_ops_keep_raw. Qed.
+Print Assumptions C08_header_ops_keep_raw.
+
+(* the statements of _sync_extra_bytes_vlr and of the vlrs setter that touch the list, extracted from the source on
+   this run, are the ones sync_eb / set_vlrs describe *)
+Theorem C08_sync_ops_modelled : sync_list_ops = modelled_sync_list_ops /\ vlrs_setter_ops = modelled_vlrs_setter_ops.
+Proof. exact sync_ops_modelled. Qed.
+Print Assumptions C08_sync_ops_modelled.
+
+(* read, re-synchronised (no extra dimensions), written through a header of any origin, read: the records that were
+   read the first time without those of the regenerated class, in order, and the EVLRs *)
+Theorem C08_sync_then_file : forall hs stale vl el vl' el' pts loc body,
+  let vl0 := filter (fun v => negb (String.eqb (kv_class (vlr_factory v)) sync_extracted_class)) vl in
+  forallb (wf_vlr false) vl = true -> forallb (wf_vlr true) el = true ->
+  kv_records (map vlr_factory vl0) = Ok vl' -> kv_records (map vlr_factory el) = Ok el' ->
+  forallb (wf_vlr false) vl' = true -> forallb (wf_vlr true) el' = true ->
+  write_file_known hs true stale (sync_eb (map vlr_factory vl) None) pts (Some (map vlr_factory el)) = Ok (loc, body) ->
+  read_file hs true loc body = Ok (map vlr_factory vl0, Some (map vlr_factory el)).
+Proof. exact sync_then_file. Qed.
+Print Assumptions C08_sync_then_file.
+
+(* ---------------- between reading and writing: the content of a parsed record is edited ---------------- *)
+(* whatever text .string is set to (shorter, longer, a prefix of the old one, empty): written with one terminating NUL,
+   read back as that text (without trailing NULs); nothing of the payload the record was parsed from is involved *)
+Theorem C08_wkt_edit : forall s, ascii_ok s = true -> parse_wkt (ser_wkt s) = Some (strip_nul s).
+Proof. exact wkt_edit. Qed.
+Print Assumptions C08_wkt_edit.
+Theorem C08_wkt_edit_exact : forall s, ascii_ok s = true -> last s 1 <> 0 -> parse_wkt (ser_wkt s) = Some s.
+Proof. exact wkt_edit_exact. Qed.
+Print Assumptions C08_wkt_edit_exact.
+
+Theorem C08_ascii_edit : forall ss, ss <> [] -> Forall (fun s => no_nul s = true) ss -> ascii_ok (join_nul ss) = true ->
+  parse_ascii (ser_ascii ss) = Some ss.
+Proof. exact ascii_edit. Qed.
+Print Assumptions C08_ascii_edit.
+Theorem C08_ascii_edit_text : forall ss, ascii_ok (join_nul ss) = true ->
+  exists ss', parse_ascii (ser_ascii ss) = Some ss' /\ join_nul ss' = join_nul ss.
+Proof. exact ascii_edit_text. Qed.
+Print Assumptions C08_ascii_edit_text.
+
+Theorem C08_lookup_edit : forall l, Forall good_entry l -> NoDup (map fst l) ->
+  exists q, ser_lookup l = Ok q /\ parse_lookup q = Some l.
+Proof. exact lookup_edit. Qed.
+Print Assumptions C08_lookup_edit.
+Theorem C08_lookup_edit_too_long : forall l e, In e l -> (lookup_name_size < length (snd e))%nat -> is_ok (ser_lookup l) = false.
+Proof. exact lookup_edit_too_long. Qed.
+Print Assumptions C08_lookup_edit_too_long.
+
+Theorem C08_doubles_edit : forall c, Forall (fun x => length x = double_size) c -> parse_doubles (ser_doubles c) = Some c.
+Proof. exact doubles_edit. Qed.
+Print Assumptions C08_doubles_edit.
+Theorem C08_extra_edit : forall c, Forall (fun x => length x = eb_struct_size) c -> parse_extra (ser_extra c) = Some c.
+Proof. exact extra_edit. Qed.
+Print Assumptions C08_extra_edit.
+Theorem C08_waveform_edit : forall c, length c = wf_struct_size -> parse_wave (ser_wave c) = Some c.
+Proof. exact wave_edit. Qed.
+Print Assumptions C08_waveform_edit.
+Theorem C08_geokeys_edit : forall g, length (gk_head g) = (gk_header_size - 2)%nat ->
+  Forall (fun c => length c = gk_entry_size) (gk_keys g) -> len (gk_keys g) < 65536 ->
+  parse_geokeys (ser_geokeys g) = Some (mkGK (gk_head g) (len (gk_keys g)) (gk_keys g)).
+Proof. exact geokeys_edit. Qed.
+Print Assumptions C08_geokeys_edit.
+
+(* the edited record as a whole, and the rest of the list *)
+Theorem C08_edit_read_back : forall cls lo u r d c0 c b c',
+  find_class known_table u r = Some (cls, lo) -> ser_content c = Ok b -> parse_class cls b = Some (Some c') ->
+  kv_record (set_content (KKnown cls u r d c0) c) = Ok (mkVlr u r d b)
+  /\ reread (set_content (KKnown cls u r d c0) c)
+     = Ok (KKnown cls u (if String.eqb cls "WaveformPacketVlr" then r else lo) d c').
+Proof. exact edit_read_back. Qed.
+Print Assumptions C08_edit_read_back.
+Theorem C08_edit_leaves_others : forall i c l j, j <> i -> nth_error (edit_at i c l) j = nth_error l j.
+Proof. exact edit_at_others. Qed.
+Print Assumptions C08_edit_leaves_others.
+
 (* a lookup with a dirty name field and a repeated class id, a WKT without its NUL, an unknown record and a
    GeoAscii record that is not ASCII, as VLRs: read in order; the first two parsed and normalised, the others raw *)
 Example C08_nonvacuous :
@@ -346,5 +448,18 @@ Example C08_nonvacuous :
   /\ match enc_vlrs false [v2] with
      | Ok vb => append_file 375 true (mkLoc 1 (375 + len vb) 0 0) (vb ++ [7; 7; 7]) 3 [9] None = Err ELaspy
      | Err _ => False
-     end.
+     end
+  (* a LASF_Spec/4 record whose payload is not a whole number of descriptors is kept raw; add_extra_dims on the header
+     that holds it, a well-formed extra-bytes record and v3: the raw one and v3 stay where they are, the parsed one is
+     replaced by the generated one, last; update() changes nothing *)
+  /\ (let bad := mkVlr UID_LASF_Spec 4 [] [1; 2; 3] in
+      let good := mkVlr UID_LASF_Spec 4 [] (zeros 192) in
+      let g := KKnown "ExtraBytesVlr" UID_LASF_Spec 4 [] (CExtra [zeros 191 ++ [9]]) in
+      vlr_factory bad = KRaw bad
+      /\ header_op "add_extra_dims" (map vlr_factory [bad; good; v3]) (Some g) = [KRaw bad; KRaw v3; g]
+      /\ header_op "vlrs" (map vlr_factory [good; bad; v3]) None = [KRaw bad; KRaw v3]
+      /\ header_op "update" (map vlr_factory [bad; good]) None = map vlr_factory [bad; good])
+  (* the WKT record read from v2 ("ab"), its string cut to "a", then emptied: written as "a\0" / "\0", read as "a" / "" *)
+  /\ reread (set_content (vlr_factory v2) (CWkt [97])) = Ok (KKnown "WktCoordinateSystemVlr" UID_LASF_Projection 2112 [] (CWkt [97]))
+  /\ kv_record (set_content (vlr_factory v2) (CWkt [])) = Ok (mkVlr UID_LASF_Projection 2112 [] [0]).
 Proof. vm_compute. repeat split; reflexivity. Qed.
